@@ -2,7 +2,8 @@
 // From the CURRENT source of one Go file it writes a copy in which
 //
 //   - every statement whose own expressions (not its nested blocks) contain a call
-//     `atomic.<Op>(...)` is preceded by `verifYield("<Func>:<k>")` (k = ordinal of the yield in
+//     `atomic.<Op>(...)` (or a method call Load/Store/Add/Swap/CompareAndSwap on a field
+//     listed with -fields, for typed atomics) is preceded by `verifYield("<Func>:<k>")` (k = ordinal of the yield in
 //     that function, in source order), and
 //   - every statement `<x>.<mutex>.Lock()` for a listed mutex field is replaced by
 //     `verifLock(&<x>.<mutex>, "<Func>:lock")`.
@@ -36,6 +37,10 @@ func fail(f string, a ...any) {
 
 var mutexes = map[string]bool{}
 
+// fields of typed atomics (atomic.Int32, atomic.Bool, …): x.<field>.<Method>(...) is an access
+var atomicFields = map[string]bool{}
+var atomicMethods = map[string]bool{"Load": true, "Store": true, "Add": true, "Swap": true, "CompareAndSwap": true, "And": true, "Or": true}
+
 func hasAtomic(n ast.Node) bool {
 	found := false
 	if n == nil {
@@ -49,6 +54,18 @@ func hasAtomic(n ast.Node) bool {
 			if s, ok := c.Fun.(*ast.SelectorExpr); ok {
 				if p, ok := s.X.(*ast.Ident); ok && p.Name == "atomic" {
 					found = true
+				}
+				if atomicMethods[s.Sel.Name] {
+					switch r := s.X.(type) {
+					case *ast.SelectorExpr:
+						if atomicFields[r.Sel.Name] {
+							found = true
+						}
+					case *ast.Ident:
+						if atomicFields[r.Name] {
+							found = true
+						}
+					}
 				}
 			}
 		}
@@ -213,7 +230,13 @@ func main() {
 	in := flag.String("in", "", "")
 	out := flag.String("out", "", "")
 	mus := flag.String("mutex", "", "comma-separated mutex field names")
+	afs := flag.String("fields", "", "comma-separated names of typed-atomic fields/variables")
 	flag.Parse()
+	for _, m := range strings.Split(*afs, ",") {
+		if m != "" {
+			atomicFields[m] = true
+		}
+	}
 	for _, m := range strings.Split(*mus, ",") {
 		if m != "" {
 			mutexes[m] = true
